@@ -161,3 +161,156 @@ impl Carrier for secrecy_10::SecretBox<i64> {
         self.expose_secret() == o.expose_secret()
     }
 }
+
+// ------------------------------------------------------------------------------------------------
+// `conv` cases: the driver's own `From` / `TryFrom` / `TryInto` conversions on values built from components
+// (modelled arithmetically in lean/ScyllaVerif/Model/C01ExternalConv.lean)
+// ------------------------------------------------------------------------------------------------
+
+pub fn run_conv(w: &[&str]) -> String {
+    let num = |i: usize| -> Option<i64> { w.get(i)?.parse().ok() };
+    let bad = || "bad-case".to_owned();
+    match w.first().copied() {
+        Some("time_date") => {
+            let Some(jd) = num(1) else { return bad() };
+            match time_03::Date::from_julian_day(jd as i32) {
+                Ok(d) => CqlDate::from(d).0.to_string(),
+                Err(_) => bad(),
+            }
+        }
+        Some("cql_time_date") => {
+            let Some(d) = num(1) else { return bad() };
+            let r: Result<time_03::Date, _> = CqlDate(d as u32).try_into();
+            r.map(|d| d.to_julian_day().to_string()).unwrap_or("overflow".to_owned())
+        }
+        Some("time_time") => {
+            let (Some(h), Some(m), Some(s), Some(n)) = (num(1), num(2), num(3), num(4)) else { return bad() };
+            match time_03::Time::from_hms_nano(h as u8, m as u8, s as u8, n as u32) {
+                Ok(t) => CqlTime::from(t).0.to_string(),
+                Err(_) => bad(),
+            }
+        }
+        Some("cql_time_time") => {
+            let Some(x) = num(1) else { return bad() };
+            let r: Result<time_03::Time, _> = CqlTime(x).try_into();
+            r.map(|t| {
+                let (h, m, s, n) = t.as_hms_nano();
+                format!("{} {} {} {}", h, m, s, n)
+            })
+            .unwrap_or("overflow".to_owned())
+        }
+        Some("time_odt") => {
+            let (Some(secs), Some(nanos)) = (num(1), num(2)) else { return bad() };
+            match time_03::OffsetDateTime::from_unix_timestamp_nanos(secs as i128 * 1_000_000_000 + nanos as i128) {
+                Ok(t) => CqlTimestamp::from(t).0.to_string(),
+                Err(_) => bad(),
+            }
+        }
+        Some("cql_time_odt") => {
+            let Some(ms) = num(1) else { return bad() };
+            let r: Result<time_03::OffsetDateTime, _> = CqlTimestamp(ms).try_into();
+            r.map(|t| format!("{} {}", t.unix_timestamp(), t.nanosecond())).unwrap_or("overflow".to_owned())
+        }
+        Some("chrono_time") => {
+            let (Some(secs), Some(frac)) = (num(1), num(2)) else { return bad() };
+            match chrono_04::NaiveTime::from_num_seconds_from_midnight_opt(secs as u32, frac as u32) {
+                Some(t) => CqlTime::try_from(t).map(|c| c.0.to_string()).unwrap_or("overflow".to_owned()),
+                None => bad(),
+            }
+        }
+        Some("cql_chrono_time") => {
+            use chrono_04::Timelike;
+            let Some(x) = num(1) else { return bad() };
+            let r: Result<chrono_04::NaiveTime, _> = CqlTime(x).try_into();
+            r.map(|t| format!("{} {}", t.num_seconds_from_midnight(), t.nanosecond())).unwrap_or("overflow".to_owned())
+        }
+        Some("chrono_dt") => {
+            let (Some(secs), Some(millis)) = (num(1), num(2)) else { return bad() };
+            match chrono_04::DateTime::<chrono_04::Utc>::from_timestamp(secs, (millis * 1_000_000) as u32) {
+                Some(t) => CqlTimestamp::from(t).0.to_string(),
+                None => bad(),
+            }
+        }
+        Some("cql_chrono_dt") => {
+            let Some(ms) = num(1) else { return bad() };
+            let r: Result<chrono_04::DateTime<chrono_04::Utc>, _> = CqlTimestamp(ms).try_into();
+            r.map(|t| format!("{} {}", t.timestamp(), t.timestamp_subsec_millis())).unwrap_or("overflow".to_owned())
+        }
+        Some("chrono_date") => {
+            let Some(days) = num(1) else { return bad() };
+            match chrono_04::NaiveDate::from_num_days_from_ce_opt((days + 719_163) as i32) {
+                Some(d) => CqlDate::from(d).0.to_string(),
+                None => bad(),
+            }
+        }
+        _ => bad(),
+    }
+}
+
+pub fn generate_conv(rng: &mut Rng, n: u64, emit: &mut dyn FnMut(String)) {
+    let day_ns = 86_400_000_000_000i64;
+    for i in 0..n {
+        match i % 11 {
+            0 => {
+                let jd = *rng.pick(&[-1_930_999i64, 5_373_484, 2_440_588, 2_440_587, 0]);
+                let jd = if rng.bool() { jd } else { rng.range(-1_930_999, 5_373_484) };
+                emit(format!("conv time_date {}", jd))
+            }
+            1 => {
+                let d = match rng.below(3) {
+                    0 => *rng.pick(&[0i64, u32::MAX as i64, 1 << 31, (1 << 31) - 2_440_588 - 1_930_999, (1 << 31) - 2_440_588 - 1_931_000,
+                        (1 << 31) - 2_440_588 + 5_373_484, (1 << 31) - 2_440_588 + 5_373_485]),
+                    1 => rng.range((1 << 31) - 5_000_000, (1 << 31) + 4_000_000),
+                    _ => rng.below(1 << 32) as i64,
+                };
+                emit(format!("conv cql_time_date {}", d))
+            }
+            2 => {
+                let r = rng.below(1_000_000_000);
+                let n = *rng.pick(&[0u64, 1, 999_999_999, 500_000_000, r]);
+                emit(format!("conv time_time {} {} {} {}", rng.below(24), rng.below(60), rng.below(60), n))
+            }
+            3 | 7 => {
+                let x = match rng.below(4) {
+                    0 => *rng.pick(&[0i64, -1, day_ns - 1, day_ns, day_ns + 1, i64::MAX, i64::MIN, 3_600_000_000_000 * 24, 3_600_000_000_000 * 256,
+                        3_600_000_000_000 * 255 + 59, -day_ns]),
+                    1 => rng.range(0, day_ns - 1),
+                    2 => rng.range(-day_ns, 3 * day_ns),
+                    _ => rng.next() as i64,
+                };
+                emit(format!("conv {} {}", if i % 11 == 3 { "cql_time_time" } else { "cql_chrono_time" }, x))
+            }
+            4 => {
+                let secs = match rng.below(3) {
+                    0 => *rng.pick(&[0i64, -1, 1, -377_705_116_800, 253_402_300_799, 1_700_000_000]),
+                    _ => rng.range(-377_705_116_800, 253_402_300_799),
+                };
+                let r = rng.below(1_000_000_000);
+                let n = *rng.pick(&[0u64, 999_999_999, 1_000_000, 999_999, 123_456_789, r]);
+                emit(format!("conv time_odt {} {}", secs, n))
+            }
+            5 | 9 => {
+                let ms = match rng.below(4) {
+                    0 => *rng.pick(&[0i64, -1, 999, -999, 1000, -1000, -1001, 253_402_300_799_999, 253_402_300_800_000, -377_705_116_800_000,
+                        -377_705_116_800_001, i64::MAX, i64::MIN]),
+                    1 => rng.range(-377_705_116_800_000, 253_402_300_799_999),
+                    2 => rng.range(-100_000, 100_000),
+                    _ => rng.range(-8_000_000_000_000_000, 8_000_000_000_000_000),
+                };
+                // chrono's own range is not modelled: keep it inside
+                let ms = if i % 11 == 9 { ms.clamp(-8_000_000_000_000_000, 8_000_000_000_000_000) } else { ms };
+                emit(format!("conv {} {}", if i % 11 == 5 { "cql_time_odt" } else { "cql_chrono_dt" }, ms))
+            }
+            6 => {
+                let secs = if rng.chance(1, 4) { 86_399 } else { rng.below(86_400) };
+                let (r1, r2) = (rng.below(1_000_000_000), rng.below(2_000_000_000));
+                let frac = *rng.pick(&[0u64, 999_999_999, 1_000_000_000, 1_999_999_999, r1, r2]);
+                // chrono admits a leap-second fraction only in the 60th second of a minute
+                let secs = if frac >= 1_000_000_000 { secs - secs % 60 + 59 } else { secs };
+                emit(format!("conv chrono_time {} {}", secs, frac))
+            }
+            8 => emit(format!("conv chrono_dt {} {}", rng.range(-8_000_000_000_000, 8_000_000_000_000), rng.below(1000))),
+            _ => emit(format!("conv chrono_date {}", rng.range(-90_000_000, 90_000_000))),
+        }
+    }
+}
